@@ -906,7 +906,7 @@ func oneTable(seed int64) tableResult {
 }
 
 func Run(args []string) {
-	rep := vh.NewReport(command, "random type tables as in sem-rules (4 named types, root of depth<=3, recursive references, nullable, additionalProperties, scalar rules with odd number spellings) where one scalar position in five carries an or rule with 2-3 alternatives: a type name (1/3) or an inline scalar type, with min/max or minLength/maxLength half of the time; the example token is one that fits the first satisfiable scalar alternative; JSight text -> real AddType/Check/Validate; for the model every inline alternative is a fresh environment entry anonN and the node a reference listing them -> Lean VA.validateT (driver semc); 12 documents per table: 5 sampled (through a random alternative), 5 sampled then mutated, 2 random, tokens from pools of spellings; tables refused by Check are skipped and counted by error code; nontrivial = an or rule is reachable from the root")
+	rep := vh.NewReport(command, "random type tables as in sem-rules (4 named types, root of depth<=3, recursive references, nullable, additionalProperties, scalar rules with odd number spellings) where one scalar position in five carries an or rule with 2-3 alternatives: a type name (1/3) or an inline scalar type, with min/max or minLength/maxLength half of the time; the example token is one that fits the first satisfiable scalar alternative; JSight text -> real AddType/Check/Validate; for the model every inline alternative is a fresh environment entry anonN and the node a reference listing them -> Lean VA.validateT (driver semc); 12 documents per table: 5 sampled (through a random alternative), 5 sampled then mutated, 2 random, tokens from pools of spellings; tables refused by Check are skipped and counted by error code; nontrivial = an or rule is reachable from the root; a difference on a table where a non-nullable reference position whose names all end in a cycle of pure references (@a = @a: no alternative at all) is reachable from the root carries the class K-C09-cycle")
 	r := vh.NewRand(salt)
 	nTables := vh.Pick(3000, 100000)
 	const batch = 4000
